@@ -135,9 +135,9 @@ def units(tier, seed):
     out = []
     cap = 21 if tier == 'quick' else 56
     import math
-    for N in range(1, 7):
-        for d in range(1, 7):
-            if math.comb(N + d - 1, d) <= cap and not (tier == 'quick' and d > 4):
+    for N in range(1, 9):
+        for d in range(1, 10):
+            if math.comb(N + d - 1, d) <= cap:
                 out.append(Unit('C15/tables N=%d d=%d' % (N, d), 'symx.props.c15', 'h_tables', {'N': N, 'd': d},
                                 {'property': PROP, 'validate': False}))
     for pairs in ([[(2, 2), (3, 1)], [(3, 2), (2, 5)], [(2, 3), (4, 1)], [(1, 2), (1, 1), (1, 3)]] if tier == 'quick' else
